@@ -347,6 +347,10 @@ RULE = ("every starting schema {fresh; schema_migrations recorded up to k = 1..N
         "authorizer (f = 1 .. number of such operations in a fresh run + 1): the abandoned file must sit at a version boundary and the following runs must converge; "
         "plus every starting schema migrated with the two sources [server, dbos] and [dbos, server] (directly, and after a server-only run); "
         "non-trivial = non-fresh start or repeated run")
+from vmc.tables import _ROUND6 as _R6  # noqa: E402
+
+RULE += _R6["C28"]
+
 
 
 def _schema_ops_of_fresh_run() -> int:
